@@ -51,9 +51,16 @@ def flag_sets(choices):
     return st.lists(st.sampled_from(choices), unique=True, max_size=len(choices)).map(lambda fl: sum(fl))
 
 
+# bits that RFC 9171 leaves reserved/unassigned: a node must carry them through unchanged
+UNASSIGNED_BUNDLE_FLAGS = [0x08, 0x80, 0x100, 0x2000, 0x8000, 0x080000, 0x200000, 1 << 40]
+UNASSIGNED_BLOCK_FLAGS = [0x08, 0x20, 0x40, 0x100]
+
+
 @st.composite
 def primaries(draw, fragment=None, admin=False, extended_eid=False):
     flags = draw(flag_sets(REPORT_FLAGS + OTHER_FLAGS))
+    if draw(st.integers(0, 3)) == 0:
+        flags |= draw(flag_sets(UNASSIGNED_BUNDLE_FLAGS))
     if admin:
         flags |= ref9171.FLAG_ADMIN
     is_frag = draw(st.booleans()) if fragment is None else fragment
@@ -122,7 +129,10 @@ def bundles(draw, max_ext=3, admin=None, fragment=None, payload_max=400, extende
     blocks = []
     for num in nums:
         tcode, data = draw(ext_block_bodies(extended_eid))
-        blocks.append(dict(type=tcode, num=num, flags=draw(flag_sets(BLOCK_FLAGS)),
+        bflags = draw(flag_sets(BLOCK_FLAGS))
+        if draw(st.integers(0, 4)) == 0:
+            bflags |= draw(flag_sets(UNASSIGNED_BLOCK_FLAGS))
+        blocks.append(dict(type=tcode, num=num, flags=bflags,
                            crc_type=draw(st.sampled_from(list(crc_types))), data=data))
     if is_admin:
         pdata = draw(status_reports(extended_eid))
